@@ -230,6 +230,11 @@ func Check(cfg Config, prop string) int {
 				g := addGroup(&group{Key: short(u.Key) + "|bounded|" + fs[0], Func: short(u.Key), Kind: "bounded", Label: fs[0], Unit: u,
 					Source: "bounded stand-in " + fs[0] + " (" + strings.Join(fs[1:], " ") + ") finds no violation", Reason: tailOf(log, 1500)})
 				g.boundedRepro = true
+			} else if outcome == "did-not-complete" {
+				// a stand-in that does not build or does not finish has explored nothing: that is not a pass
+				rec["outcome"] = "driver did not complete"
+				addGroup(&group{Key: short(u.Key) + "|bounded|" + fs[0] + "|did-not-complete", Func: short(u.Key), Kind: "bounded", Label: fs[0] + "-did-not-complete", Unit: u,
+					Source: "bounded stand-in " + fs[0] + " builds and runs to completion", Reason: tailOf(log, 1500)})
 			} else {
 				rec["outcome"] = "no violation within the bound"
 			}
@@ -442,7 +447,16 @@ func runDriver(cfg Config, pkgDir, driver, casePath string) (string, string) {
 	ov := map[string]any{"Replace": map[string]string{target: src}}
 	ovPath := filepath.Join(tmp, "overlay.json")
 	writeJSON(ovPath, ov)
-	cmd := exec.Command("go", "test", "-overlay", ovPath, "-vet=off", "-timeout", "120s", "-count=1", "-run", "^TestReplay_"+driver+"$", "./"+pkgDir+"/")
+	timeout := "300s"
+	if cfg.Tier == "thorough" {
+		timeout = "1200s"
+	}
+	args := []string{"test", "-overlay", ovPath, "-vet=off", "-timeout", timeout, "-count=1"}
+	if strings.HasSuffix(driver, "_race") { // drivers that run goroutines against a shared object: under the race detector
+		args = append(args, "-race")
+	}
+	args = append(args, "-run", "^TestReplay_"+driver+"$", "./"+pkgDir+"/")
+	cmd := exec.Command("go", args...)
 	cmd.Dir = cfg.Repo
 	cmd.Env = append(os.Environ(), "GOFLAGS=-mod=mod", "GOPROXY=off", "GOVC_REPLAY_CASE="+casePath, "GOVC_TIER="+cfg.Tier)
 	out, err := cmd.CombinedOutput()
@@ -450,8 +464,11 @@ func runDriver(cfg Config, pkgDir, driver, casePath string) (string, string) {
 	if len(log) > 6000 {
 		log = log[:3000] + "\n…\n" + log[len(log)-3000:]
 	}
-	if err != nil && strings.Contains(string(out), "REPRODUCED") {
+	if err != nil && (strings.Contains(string(out), "REPRODUCED") || strings.Contains(string(out), "WARNING: DATA RACE")) {
 		return "reproduced", log
+	}
+	if err != nil {
+		return "did-not-complete", log
 	}
 	return "no-failing-input-found", log
 }
